@@ -23,7 +23,7 @@ impl<A: Actor> WeakAddr<A> {
     }
 
     pub fn stopped(&self) -> bool {
-        self.running.peek().is_some()
+        futures::FutureExt::now_or_never(self.running.clone()).is_some()
     }
 
     pub fn try_stop(&mut self) -> Result<()> {
